@@ -113,7 +113,7 @@ impl Prop for C06 {
         ]
     }
     fn budget(&self, tier: Tier) -> (u32, usize) {
-        (tier.pick(100, 3000), 1000)
+        (tier.pick(100, 2000), 1000)
     }
     fn build(&self, ch: &mut Chooser, cx: &mut CaseCtx) -> C06Case {
         let thorough = cx.env.tier == Tier::Thorough;
